@@ -3,6 +3,7 @@ package dawn
 import (
 	"bytes"
 	"strings"
+	"sync"
 
 	"github.com/pgavlin/dawn/label"
 )
@@ -16,6 +17,9 @@ type lineWriter struct {
 	// project's events for the duration of a build.
 	proj *Project
 
+	// m guards line: a target's stdout and stderr are the same writer, and the commands of a shell pipeline write to
+	// it concurrently.
+	m    sync.Mutex
 	line strings.Builder
 }
 
@@ -37,6 +41,9 @@ func (l *lineWriter) sink() Events {
 }
 
 func (l *lineWriter) Write(b []byte) (int, error) {
+	l.m.Lock()
+	defer l.m.Unlock()
+
 	w := 0
 	for len(b) > 0 {
 		newline := bytes.IndexByte(b, '\n')
@@ -59,6 +66,9 @@ func (l *lineWriter) Write(b []byte) (int, error) {
 }
 
 func (l *lineWriter) Flush() error {
+	l.m.Lock()
+	defer l.m.Unlock()
+
 	if l.line.Len() != 0 {
 		l.sink().Print(l.label, l.line.String())
 		l.line.Reset()
